@@ -346,6 +346,9 @@ func runTrans(a args) error {
 		{Kind: "bolt", Pubs: [][]tUpd{{{1, []string{"a"}, false}, {2, []string{"a"}, false}}}, Subs: []tSubSpec{{Topics: []string{"a"}, Req: "earliest"}}},
 		{Kind: "local", Pubs: [][]tUpd{{{1, []string{"a"}, false}}, {{2, []string{"a"}, false}}}, Subs: []tSubSpec{{Topics: []string{"*"}}}},
 		{Kind: "bolt", Pubs: [][]tUpd{{{1, []string{"a"}, false}}}, Subs: []tSubSpec{{Topics: []string{"a"}}}, Close: true},
+		// two publishers and a connected subscriber on the persistent transport: the live order is the stored order
+		{Kind: "bolt", Pubs: [][]tUpd{{{1, []string{"a"}, false}}, {{2, []string{"a"}, false}}}, Subs: []tSubSpec{{Topics: []string{"*"}}}},
+		{Kind: "bolt", Initial: []tUpd{{1, []string{"a"}, false}}, Pubs: [][]tUpd{{{2, []string{"a"}, false}}, {{3, []string{"a"}, false}}}, Subs: []tSubSpec{{Topics: []string{"a"}, Req: "earliest"}}},
 		{Kind: "local", Pubs: [][]tUpd{{{1, []string{"a"}, false}}}, Subs: []tSubSpec{{Topics: []string{"a"}, Leave: true}}, Close: true},
 		// Close while an already disconnected subscriber is still listed, with live ones registered after it
 		{Kind: "local", Subs: []tSubSpec{{Topics: []string{"a"}, Leave: true}, {Topics: []string{"a"}}, {Topics: []string{"*"}}}, Close: true},
